@@ -50,69 +50,94 @@ def money_fields(F):
 
 
 def field_wise(F, rep):
-    cands = [b for b in F.bodies.values() if b.crate == "cgt_core" and b.kind == "method" and "Operation<rust_decimal::decimal::Decimal>" in b.ret
-             and b.argc >= 2 and "Operation<cgt_money::amount::CurrencyAmount>" in b.local_ty(1) and P.user_written(F, b)]
-    if len(cands) != 1:
-        rep.unresolved("R1", "OPCONV", f"{len(cands)} methods Operation<CurrencyAmount> → Operation<Decimal>")
+    """Decided from the transaction-level entry (`Transaction → Result<GbpTransaction>`) with helpers, closures and generic
+    mappers inlined (depth 3): whatever the decomposition, the GBP transaction's operation must be, variant by variant, the
+    same-named field converted with the transaction's own date and the cache parameter (money fields) or copied (others)."""
+    from panics import reachable
+    ents = [b for b in F.bodies.values() if b.crate == "cgt_core" and b.kind == "method" and P.user_written(F, b) and b.argc >= 2
+            and "Result<cgt_core::models::Transaction<rust_decimal::decimal::Decimal>" in b.ret.replace("GbpTransaction", "Transaction<rust_decimal::decimal::Decimal>")
+            and "models::Transaction" in b.local_ty(1) and any("FxCache" in b.local_ty(k + 1) for k in range(b.argc))]
+    if len(ents) != 1:
+        ents = [b for b in F.bodies.values() if b.crate == "cgt_core" and b.kind == "method" and P.user_written(F, b) and b.argc >= 2
+                and "models::Transaction" in b.local_ty(1) and any("FxCache" in b.local_ty(k + 1) for k in range(b.argc))
+                and "Transaction" in b.ret and "Result" in b.ret]
+    if len(ents) != 1:
+        rep.unresolved("R1", "OPCONV", f"{len(ents)} methods Transaction → Result<GbpTransaction>")
         return None
-    b = cands[0]
-    tb = Terms(F, b, inline_depth=0)
+    b = ents[0]
+    import mir
+    old_limits = dict(mir.LIMITS)
+    mir.LIMITS.update(blocks=600, size=20000)     # the per-variant dispatcher is one big function
+    # inlining stops at the amount converter(s): cgt_core functions taking a CurrencyAmount and returning Result<Decimal, _>
+    stops = tuple(x.id for x in F.bodies.values() if x.crate == "cgt_core" and x.kind in ("fn", "method") and P.user_written(F, x)
+                  and "Result<rust_decimal::decimal::Decimal" in x.ret and any("CurrencyAmount" in x.local_ty(k + 1) and "Operation" not in x.local_ty(k + 1) for k in range(x.argc)))
+    try:
+        tb = Terms(F, b, inline_depth=4, stops=stops)
+        ret = tb.local(0)
+    finally:
+        mir.LIMITS.update(old_limits)
     mf = money_fields(F)
-    # exhaustive switch
+    self_p = ("param", 0, b.local_name(1))
+    cache_param = next((("param", k, b.local_name(k + 1)) for k in range(b.argc) if "FxCache" in b.local_ty(k + 1)), None)
+    own_date = ("field", self_p, "date")
+    # exhaustive switch on the operation somewhere below the entry
     exh = False
-    for i, t in b.terms_of_kind("switch"):
-        if len(t["targets"]) == len(mf) and b.term(t["otherwise"])["k"] == "unreachable":
-            exh = True
+    reach, _ = reachable(F, [b.id])
+    for rid in reach:
+        hb = F.bodies[rid]
+        if hb.crate != "cgt_core" or not P.user_written(F, hb):
+            continue
+        for i, t in hb.terms_of_kind("switch"):
+            if len(t["targets"]) == len(mf) and hb.term(t["otherwise"])["k"] == "unreachable":
+                exh = True
     rep.ob("R1", "to_gbp:exhaustive", exh, "every Operation variant has its own conversion arm" if exh else
            "the conversion match has a default arm or misses variants", b.loc(), key="R1:to_gbp:exhaustive")
-    date_param = None
-    cache_param = None
-    for k in range(b.argc):
-        ty = b.local_ty(k + 1)
-        if "NaiveDate" in ty:
-            date_param = ("param", k, b.local_name(k + 1))
-        if "FxCache" in ty:
-            cache_param = ("param", k, b.local_name(k + 1))
+    gbp = [x for x in subterms(ret) if isinstance(x, tuple) and x and x[0] == "agg" and "Transaction" in x[1] and "operation" in dict(x[3])]
+    if not gbp:
+        rep.unresolved("R1", "GBPTX", "the entry does not build the GBP transaction visibly (depth 3)")
+        return None
+    f = dict(gbp[0][3])
+    okd = f.get("date") == own_date
+    rep.ob("R1", f"{b.short}:own-date", okd, "the GBP transaction keeps the transaction's own date" if okd else
+           f"GBP transaction date is {show(f.get('date'))[:40]}", b.loc(), key=f"R1:{b.short}:own-date")
     seen = set()
     conv_fn = None
-    for i, si, s in b.assigns():
-        rv = s["rv"]
-        if rv["k"] != "agg" or rv["adt"] != "cgt_core::models::Operation":
+    for agg in [x for x in subterms(f["operation"]) if isinstance(x, tuple) and x and x[0] == "agg" and x[1] == "cgt_core::models::Operation"]:
+        v = agg[2]
+        if v in seen:
             continue
-        v = rv["variant"]
         seen.add(v)
-        for fname, op in zip(rv["fields"], rv["ops"]):
-            term = _strip(tb.operand(op))
+        src_of = lambda fname: ("field", ("dc", ("field", self_p, "operation"), v), fname)
+        for fname, ft in agg[3]:
+            term = _strip(ft)
             is_money = mf.get(v, {}).get(fname, False)
             if is_money:
                 ok = False
                 why = f"money field {v}.{fname} is {show(term)[:80]} — not a conversion of the same field"
                 if isinstance(term, tuple) and term and term[0] == "call" and len(term[2]) >= 2:
-                    src, *rest = term[2]
                     conv_fn = term[1]
-                    src_ok = src == ("field", ("dc", ("param", 0, "self"), v), fname)
-                    date_ok = date_param in rest
+                    flat = []
+                    for a_ in term[2]:      # a carrier struct (`GbpConversion { date, fx_cache }`) counts by its fields
+                        flat += [ft2 for _, ft2 in a_[3]] if isinstance(a_, tuple) and a_ and a_[0] == "agg" else [a_]
+                    srcs = [x for x in flat if x == src_of(fname)]
+                    src = srcs[0] if srcs else next((x for x in flat if isinstance(x, tuple) and x and x[0] == "field"), flat[0])
+                    rest = [x for x in flat if x is not src]
+                    src_ok = src == src_of(fname)
+                    date_ok = own_date in rest
                     cache_ok = cache_param in rest
                     ok = src_ok and date_ok and cache_ok
-                    why = (f"{v}.{fname} = convert(self.{fname}, date, cache)" if ok else
+                    why = (f"{v}.{fname} = convert(self.operation.{fname}, self.date, cache)" if ok else
                            f"{v}.{fname} is converted from {show(src)[:50]} with ({', '.join(show(x)[:20] for x in rest)})"
                            + ("" if src_ok else " — a different field") + ("" if date_ok else " — not the transaction's date")
                            + ("" if cache_ok else " — not the cache parameter"))
-                rep.ob("R1", f"{v}.{fname}", ok, why, b.loc(s["sp"]), key=f"R1:{v}.{fname}")
+                rep.ob("R1", f"{v}.{fname}", ok, why, b.loc(), key=f"R1:{v}.{fname}")
             else:
-                ok = term == ("field", ("dc", ("param", 0, "self"), v), fname)
+                ok = term == src_of(fname)
                 rep.ob("R1", f"{v}.{fname}", ok, f"{v}.{fname} copied unchanged" if ok else
-                       f"non-money field {v}.{fname} is {show(term)[:80]} instead of an unchanged copy", b.loc(s["sp"]), key=f"R1:{v}.{fname}")
+                       f"non-money field {v}.{fname} is {show(term)[:80]} instead of an unchanged copy", b.loc(), key=f"R1:{v}.{fname}")
     for v in mf:
         if v not in seen:
             rep.ob("R1", f"{v}:built", False, f"no Operation::{v} is built by the conversion", b.loc(), key=f"R1:{v}:missing")
-    # the caller passes the transaction's own date
-    for cb, i, t in F.call_sites(lambda c: c == b.id):
-        ctb = Terms(F, cb, inline_depth=0)
-        args = [ctb.operand(a) for a in t["args"]]
-        ok = len(args) >= 2 and args[0] == ("field", ("param", 0, "self"), "operation") and args[1] == ("field", ("param", 0, "self"), "date")
-        rep.ob("R1", f"{cb.short}:own-date", ok, "operation is converted with the transaction's own date" if ok else
-               f"operation converted with ({', '.join(show(a)[:30] for a in args[:2])})", cb.loc(t["sp"]), key=f"R1:{cb.short}:own-date")
     return conv_fn
 
 
@@ -139,8 +164,10 @@ def _none_edges_return_err(F, b):
         if not (isinstance(cnd, tuple) and cnd and cnd[0] == "discr"):
             continue
         ty = _discr_ty(b, s)
-        if ty is None or not ty.startswith("core::option::Option<"):
+        if ty is not None and not ty.startswith("core::option::Option<"):
             continue
+        if ty is None and not ({v for v, _ in sw["targets"]} <= {"0", "1"}):
+            continue        # a projected place (`self.cache`): accept only two-variant shapes
         none_t = [x[1] for x in sw["targets"] if x[0] == "0"]
         if not none_t and [x for x in sw["targets"] if x[0] == "1"]:
             none_t = [sw["otherwise"]]
